@@ -310,7 +310,7 @@ func main() {
 		for k, n := range ex.Stats.Aborts {
 			switch k {
 			case "assume", "assert-failed", "subsumed", "panic", "deadlock":
-			case "unwind":
+			case "unwind", "lencap":
 				if !cfg.UnwindOK {
 					rep.Reduced = append(rep.Reduced, fmt.Sprintf("%s x%d (%s)", k, n, ex.Stats.AbortSamples[k]))
 				}
